@@ -474,9 +474,13 @@ class VirtualFileSystem(FileSystem[str]):
     def walk_folder(self, folder: str = '') -> Iterator[File[Self]]:
         """Return all files that are 'subfolders' of the provided folder."""
         folder = self._clean_path(folder)
+        if folder == '.':
+            # normpath() turns the blank root folder into this.
+            folder = ''
 
-        for filename, data in self._mapping.values():
-            if filename.startswith(folder):
+        # Compare the cleaned keys, the original filenames haven't been casefolded.
+        for key, (filename, data) in self._mapping.items():
+            if key.startswith(folder):
                 yield File(self, filename, filename)
 
     def _file_exists(self, name: str) -> bool:
